@@ -78,7 +78,121 @@ def send_target_ok(call: ast.Call, addr_attrs: set, func) -> bool:
         return True  # a parameter named sender (of the function or of the handler a nested function closes over)
     if isinstance(t, ast.Call) and dotted(t.func) == "getattr" and len(t.args) == 3:
         return source.is_const(t.args[1], "reply_to") and isinstance(t.args[2], ast.Name)
+    if isinstance(t, ast.Call) and is_self_attr(t.func) and func is not None:
+        # the target is chosen by a helper method of the class: every value it can return is an address (an address attribute, or one of its parameters / reply_to of one
+        # of its parameters where the caller passes an address or the message)
+        cls = source.enclosing_class(func)
+        helper = next((m for m in (cls.body if cls is not None else []) if isinstance(m, source.FUNC_TYPES) and m.name == t.func.attr), None)
+        if helper is None:
+            return False
+        bound = source.bind_args(t, helper)
+        hps = [p_ for p_ in params_of(helper) if p_ != "self"]
+        defs = source.local_defs(helper)
+
+        def addr_like(e, depth=0, none_ok=False):
+            if depth > 6:
+                return False
+            if is_self_attr(e) and (e.attr in addr_attrs or e.attr == "myAddress"):
+                return True
+            if isinstance(e, ast.Name) and e.id in defs:
+                return addr_like(defs[e.id], depth + 1)
+            if isinstance(e, ast.Name) and e.id in hps:
+                a_ = bound.get(e.id)
+                return isinstance(a_, ast.Name) and (a_.id == sender or a_.id == "sender")
+            if isinstance(e, ast.Call) and dotted(e.func) == "getattr" and len(e.args) == 3 and source.is_const(e.args[1], "reply_to"):
+                return addr_like(e.args[2], depth + 1) or (none_ok and source.is_const(e.args[2]) and e.args[2].value is None)
+            if isinstance(e, ast.IfExp):
+                return addr_like(e.body, depth + 1) and addr_like(e.orelse, depth + 1)
+            if isinstance(e, ast.BoolOp) and isinstance(e.op, ast.Or):
+                # `a or b or c`: an absent (None) address falls through to the next operand; the last one must be an address
+                return all(addr_like(v_, depth + 1, none_ok=True) for v_ in e.values[:-1]) and addr_like(e.values[-1], depth + 1)
+            if isinstance(e, ast.BoolOp):
+                return all(addr_like(v_, depth + 1) for v_ in e.values)
+            return False
+
+        rets = [n for n in walk_body(helper) if isinstance(n, ast.Return)]
+
+        def ret_ok(r_):
+            v_ = r_.value
+            if v_ is None:
+                return False
+            if addr_like(v_):
+                return True
+            # `x = getattr(msg, "reply_to", None)` returned only where x is known to be set (`if x: return x`)
+            return isinstance(v_, ast.Name) and v_.id in defs and addr_like(defs[v_.id], none_ok=True) and any(isinstance(f_, ast.Name) and f_.id == v_.id for f_ in pat.fact_nodes(r_))
+
+        return bool(rets) and all(ret_ok(r_) for r_ in rets)
     return False
+
+
+class _NoValue(Exception):
+    pass
+
+
+_NO_REPLY_TO = object()  # stands for a message that has no reply_to attribute (a wake-up)
+
+
+def _address_value(e, env, cls, depth=0):
+    """Value of an address expression in a scenario: names from env, self.myAddress = 'SELF', any other self.<x> = 'ADDR:<x>' (a set address attribute),
+    getattr(<message without reply_to>, 'reply_to', d) = d, helper methods of the class interpreted (straight-line code, if / conditional expressions on ==, !=, and, or, not)."""
+    if depth > 8:
+        raise _NoValue("helper nesting")
+    if isinstance(e, ast.Name):
+        if e.id in env:
+            return env[e.id]
+        raise _NoValue(f"name {e.id}")
+    if isinstance(e, ast.Constant):
+        return e.value
+    if is_self_attr(e):
+        return "SELF" if e.attr == "myAddress" else env.get(f"self.{e.attr}", f"ADDR:{e.attr}")
+    if isinstance(e, ast.Call) and dotted(e.func) == "getattr" and len(e.args) == 3 and isinstance(e.args[1], ast.Constant):
+        obj = _address_value(e.args[0], env, cls, depth + 1)
+        if obj is _NO_REPLY_TO:
+            return _address_value(e.args[2], env, cls, depth + 1)
+        raise _NoValue("getattr on a value the scenario does not fix")
+    if isinstance(e, ast.IfExp):
+        return _address_value(e.body if _address_value(e.test, env, cls, depth + 1) else e.orelse, env, cls, depth + 1)
+    if isinstance(e, ast.BoolOp):
+        v = None
+        for x in e.values:
+            v = _address_value(x, env, cls, depth + 1)
+            if (isinstance(e.op, ast.And) and not v) or (isinstance(e.op, ast.Or) and v):
+                return v
+        return v
+    if isinstance(e, ast.UnaryOp) and isinstance(e.op, ast.Not):
+        return not _address_value(e.operand, env, cls, depth + 1)
+    if isinstance(e, ast.Compare) and len(e.ops) == 1 and isinstance(e.ops[0], (ast.Eq, ast.NotEq, ast.Is, ast.IsNot)):
+        a_, b_ = _address_value(e.left, env, cls, depth + 1), _address_value(e.comparators[0], env, cls, depth + 1)
+        same = a_ is b_ if a_ is None or b_ is None or a_ is _NO_REPLY_TO or b_ is _NO_REPLY_TO else a_ == b_
+        return same if isinstance(e.ops[0], (ast.Eq, ast.Is)) else not same
+    if isinstance(e, ast.Call) and is_self_attr(e.func):
+        helper = next((m for m in cls.body if isinstance(m, source.FUNC_TYPES) and m.name == e.func.attr), None)
+        if helper is None:
+            raise _NoValue(f"method {e.func.attr}")
+        henv = {k: _address_value(v, env, cls, depth + 1) for k, v in source.bind_args(e, helper).items()}
+        henv.update({k: v for k, v in env.items() if k.startswith("self.")})
+
+        def run(stmts):
+            for st in stmts:
+                if isinstance(st, ast.Return):
+                    return ("ret", None if st.value is None else _address_value(st.value, henv, cls, depth + 1))
+                if isinstance(st, ast.Assign) and len(st.targets) == 1 and isinstance(st.targets[0], ast.Name):
+                    henv[st.targets[0].id] = _address_value(st.value, henv, cls, depth + 1)
+                elif isinstance(st, ast.If):
+                    r = run(st.body if _address_value(st.test, henv, cls, depth + 1) else st.orelse)
+                    if r is not None:
+                        return r
+                elif is_logging_stmt(st) or (isinstance(st, ast.Expr) and isinstance(st.value, ast.Constant)):
+                    continue
+                else:
+                    raise _NoValue(f"statement {type(st).__name__} in {helper.name}")
+            return None
+
+        r = run(helper.body)
+        if r is None:
+            raise _NoValue(f"{helper.name} does not return")
+        return r[1]
+    raise _NoValue(f"expression {type(e).__name__}")
 
 
 def _truthy_edge(test: ast.AST, var: str):
@@ -210,6 +324,18 @@ def run(chk):
         if sends:
             t = sends[0].args[0]
             parent_attr[a.name] = t.attr if is_self_attr(t) else "reply_to|sender"
+        # a failure the actor addressed to ITSELF (no_retry around a wake-up handler, or the actor's own handler of a wake-up: the sender of a wake-up is the actor, and a
+        # wake-up carries no reply_to) must LEAVE the actor when it is forwarded; evaluated for sender == own address, message without reply_to, every address attribute set
+        for c in sends:
+            try:
+                val = _address_value(c.args[0], {ps[2] if len(ps) > 2 else "sender": "SELF", msgp: _NO_REPLY_TO}, a.node)
+            except _NoValue as e:
+                chk.unknown("O9.3", f"{a.name}.receiveMsg_BenchmarkFailure: forwarding target `{short(c.args[0], 60)}` cannot be evaluated ({e})", c)
+                continue
+            chk.ob("O9.3", f"{a.name}: a failure the actor addressed to itself (failing wake-up) is forwarded to another actor", val != "SELF", c,
+                   f"target `{short(c.args[0], 60)}` = {val} for sender == own address and a message without reply_to" + ("" if val != "SELF" else
+                   ": the failure is sent to the actor itself again and circulates forever; race control is never told, the race ends as a success"),
+                   key=f"{loc(a.node).split(':')[0]}:{a.name}.receiveMsg_BenchmarkFailure:self-addressed-failure-leaves")
     # race control sets the error flag before forwarding
     f = root.methods.get("receiveMsg_BenchmarkFailure")
     if f is not None:
@@ -268,7 +394,16 @@ def run(chk):
         ps = set()
         for hname, kind, node in addr[a.name].get(pa, []):
             if kind == "sender" and hname.startswith("receiveMsg_"):
-                ps |= senders_of.get(hname[len("receiveMsg_"):], set())
+                mt = hname[len("receiveMsg_"):]
+                found = senders_of.get(mt, set())
+                if not found:
+                    # the message is constructed, parked and sent later through a splat (`self.send(*each)`): the constructing actor class is the sender
+                    found = {b.name for b in model.actors for m_ in b.methods.values() for c_ in walk_body(m_) if isinstance(c_, ast.Call) and last_attr(c_.func) == mt}
+                if not found:
+                    # ... or built by a factory method of another message; the actor that CREATES this actor class is the one that bootstraps it
+                    found = {b.name for b in model.actors for m_ in b.methods.values() for c_ in walk_body(m_) if isinstance(c_, ast.Call) and last_attr(c_.func) == "createActor"
+                             and c_.args and last_attr(c_.args[0]) == a.name}
+                ps |= found
         ps.discard(a.name)
         parents[a.name] = ps
     for a in model.actors:
@@ -359,23 +494,74 @@ def run(chk):
     chk.ob("O9.2x", "exit requests in guarded handlers located", n_x >= 1, model.actor("BenchmarkActor").node, f"{n_x} site(s)")
 
     # a worker process that dies is reported whichever worker it is: the failure for an exited child is sent under exactly {the child is one of the workers, we are not exiting}
-    chk.rule("O9.3w", "DriverActor.receiveMsg_ChildActorExited sends BenchmarkFailure to race control for every exited child that is a worker (membership in the worker list), unless "
-             "the driver is exiting; no other condition (in particular no truthiness of the worker's index: index 0 is a worker)", 2,
-             "the process of one particular worker dies: nothing reaches race control and the race hangs")
+    chk.rule("O9.3w", "child processes that die are reported: DriverActor.receiveMsg_ChildActorExited sends BenchmarkFailure to race control for every exited child that is a worker "
+             "(also the one with index 0) or a track preparator that has not been asked to exit yet, unless the driver is exiting; the track preparator reports the death of one of "
+             "its preparation workers to the driver unless it has been asked to exit itself (decided on values: the conditions around each failure send are evaluated per scenario)", 5,
+             "the process of one particular worker / of a track preparation worker dies (OOM killer while a corpus is decompressed): nothing reaches race control and the race hangs")
     cae = DA.methods.get("receiveMsg_ChildActorExited")
     if cae is None:
         raise AnchorMissing("DriverActor.receiveMsg_ChildActorExited")
-    cdefs = source.local_defs(cae)
+
+    def _fires(call, fn, env):
+        """do all conditions that control `call` (guard facts, locals inlined) hold in the scenario? True / False / None (not evaluable)"""
+        ldefs = source.local_defs(fn)
+        for f_ in pat.fact_nodes(call):
+            e_ = source.inline_node(f_, ldefs)
+
+            class _Idx(ast.NodeTransformer):  # <list>.index(<x>) on scenario values
+                def visit_Call(self, n):
+                    self.generic_visit(n)
+                    if isinstance(n.func, ast.Attribute) and n.func.attr == "index" and len(n.args) == 1:
+                        try:
+                            return ast.copy_location(ast.Constant(value=list(_ev(n.func.value, env)).index(_ev(n.args[0], env))), n)
+                        except (CannotEval, ValueError):
+                            return n
+                    return n
+            e_ = ast.fix_missing_locations(_Idx().visit(ast.parse(u(e_), mode="eval").body))  # a fresh copy (analysed nodes carry parent links: never deep-copy them)
+            try:
+                if not _ev(e_, env):
+                    return False
+            except CannotEval:
+                return None
+        return True
+
+    mp_ = params_of(cae)[1]
     fs_ = [c for c in source.calls_in(cae, attr="send") if is_failure_send(c)]
     chk.ob("O9.3w", "a failure is sent for an exited worker", len(fs_) >= 1, fs_[0] if fs_ else cae, f"{len(fs_)} failure send(s)")
-    for c in fs_:
-        facts_ = [source.inline_node(f_, cdefs) for f_ in pat.fact_nodes(c)]
-        member = [f_ for f_ in facts_ if pat.is_(f_, f"{params_of(cae)[1]}.childAddress in self.driver.workers")]
-        exiting = [f_ for f_ in facts_ if pat.is_(f_, "self.status != 'exiting'")]
-        extra = [u(f_) for f_ in facts_ if f_ not in member and f_ not in exiting]
-        ok = len(member) >= 1 and not extra
-        chk.ob("O9.3w", "the failure is sent for every worker (membership test only)", ok, c, f"conditions: {[u(f_) for f_ in facts_]}" +
-               ("" if ok else f" — extra / other condition(s) {extra}: e.g. the truthiness of the worker's list index excludes worker 0"), key="esrally/driver/driver.py:DriverActor.receiveMsg_ChildActorExited:every-worker")
+    SCEN = [("worker 0 dies while the benchmark runs", "W0", "running", "every-worker"), ("worker 1 dies while the benchmark runs", "W1", "running", "every-worker:1"),
+            ("a track preparator dies while the track is being prepared", "P0", "preparing", "preparator")]
+    for what, child, status, kk in SCEN:
+        env = {mp_: Record(childAddress=child), "self": Record(driver=Record(workers=["W0", "W1"]), children=["P0"], status=status)}
+        res = [_fires(c, cae, env) for c in fs_]
+        if any(r is None for r in res) and not any(r is True for r in res):
+            chk.unknown("O9.3w", f"DriverActor.receiveMsg_ChildActorExited: the conditions of a failure send cannot be evaluated for `{what}`", cae)
+            continue
+        ok = any(r is True for r in res)
+        chk.ob("O9.3w", f"driver: {what} -> BenchmarkFailure to race control", ok, fs_[0] if fs_ else cae,
+               f"failure sends firing: {sum(1 for r in res if r is True)} of {len(res)}" + ("" if ok else " — the exit is only logged: race control waits forever"
+               + (" (e.g. a truthiness test of the worker's list index excludes worker 0)" if child == "W0" else "")),
+               key=f"esrally/driver/driver.py:DriverActor.receiveMsg_ChildActorExited:{kk}")
+    TPA = model.actor("TrackPreparationActor")
+    tcae = TPA.methods.get("receiveMsg_ChildActorExited") if TPA is not None else None
+    creates = TPA is not None and any(isinstance(n, ast.Call) and last_attr(n.func) == "createActor" for m_ in TPA.methods.values() for n in walk_body(m_))
+    if TPA is None or not creates:
+        raise AnchorMissing("TrackPreparationActor (creator of the track preparation workers)")
+    if tcae is None:
+        chk.ob("O9.3w", "track preparator: a preparation worker dies while it works -> BenchmarkFailure to the driver", False, TPA.node,
+               "TrackPreparationActor creates worker actors but has no receiveMsg_ChildActorExited: their death is dropped, the preparator waits for WorkerIdle forever",
+               key="esrally/driver/driver.py:TrackPreparationActor.receiveMsg_ChildActorExited:reports")
+    else:
+        exr = TPA.methods.get("receiveMsg_ActorExitRequest")
+        flags = {t.attr for n in (walk_body(exr) if exr is not None else []) if isinstance(n, ast.Assign) and source.is_const(n.value, True) for t in n.targets if is_self_attr(t)}
+        tf_ = [c for c in source.calls_in(tcae, attr="send") if is_failure_send(c) and send_target_ok(c, set(addr[TPA.name]), tcae)]
+        env = {params_of(tcae)[1]: Record(childAddress="T0"), "self": Record(children=["T0", "T1"], **{f_: False for f_ in flags})}
+        res = [_fires(c, tcae, env) for c in tf_]
+        if any(r is None for r in res) and not any(r is True for r in res):
+            chk.unknown("O9.3w", "TrackPreparationActor.receiveMsg_ChildActorExited: the conditions of the failure send cannot be evaluated", tcae)
+        else:
+            ok = any(r is True for r in res)
+            chk.ob("O9.3w", "track preparator: a preparation worker dies while it works -> BenchmarkFailure to the driver", ok, tf_[0] if tf_ else tcae,
+                   f"{len(tf_)} failure send(s) to the driver, firing: {sum(1 for r in res if r is True)} (not asked to exit: {sorted(flags)} = False)", key="esrally/driver/driver.py:TrackPreparationActor.receiveMsg_ChildActorExited:reports")
 
     # completion is announced LAST: once BenchmarkComplete is on its way race control computes, stores and prints the results; anything that can still fail at the final join point
     # (closing the driver's metrics store = its last flush, deleting API keys) therefore runs before it
@@ -755,6 +941,18 @@ _R = "esrally/racecontrol.py"
 _M = "esrally/mechanic/mechanic.py"
 _A = "esrally/actor.py"
 VARIANTS = [
+    V("F57 reverted: the driver logs the premature exit of a track preparator", "break", _D, "        elif msg.childAddress in self.children and self.status != \"exiting\":\n", "        elif False:\n", "O9.3w"),
+    V("F57 reverted: the track preparator reports the death of a worker only when it is exiting", "break", _D, "    def receiveMsg_ChildActorExited(self, msg, sender):\n        if self.exiting:\n", "    def receiveMsg_ChildActorExited(self, msg, sender):\n        if not self.exiting:\n", "O9.3w"),
+    V("F57 respelled: preparator branch tested first, status compared the other way round", "keep", _D, "        elif msg.childAddress in self.children and self.status != \"exiting\":\n", "        elif \"exiting\" != self.status and msg.childAddress in self.children:\n", "O9.3w"),
+    V("F57 respelled: guard clause in the track preparator", "keep", _D, "        if self.exiting:\n            self.logger.debug(\"A track preparation worker has exited.\")\n        else:\n            self.logger.error(\"A track preparation worker has exited prematurely. Aborting benchmark.\")\n            self.send(self.driver_actor, actor.BenchmarkFailure(\"A track preparation worker has exited prematurely.\"))\n",
+      "        if self.exiting:\n            self.logger.debug(\"A track preparation worker has exited.\")\n            return\n        self.logger.error(\"A track preparation worker has exited prematurely. Aborting benchmark.\")\n        self.send(self.driver_actor, actor.BenchmarkFailure(\"A track preparation worker has exited prematurely.\"))\n", "O9.3w"),
+    V("F58 reverted: the node mechanic forwards a failure to reply_to / sender whoever that is", "break", _M, "        return getattr(msg, \"reply_to\", None) or self.reply_to or sender\n", "        return getattr(msg, \"reply_to\", sender)\n", "O9.3"),
+    V("F58: the sender is preferred to whoever started the node mechanic", "break", _M, "        return getattr(msg, \"reply_to\", None) or self.reply_to or sender\n", "        return getattr(msg, \"reply_to\", None) or sender or self.reply_to\n", "O9.3"),
+    V("F58 respelled: if statements instead of the or-chain", "keep", _M, "        return getattr(msg, \"reply_to\", None) or self.reply_to or sender\n",
+      "        target = getattr(msg, \"reply_to\", None)\n        if target:\n            return target\n        if self.reply_to:\n            return self.reply_to\n        return sender\n", "O9.3"),
+    V("F58 respelled: own address recognised explicitly", "keep", _M, "        return getattr(msg, \"reply_to\", None) or self.reply_to or sender\n",
+      "        target = getattr(msg, \"reply_to\", sender)\n        return self.reply_to if target == self.myAddress and self.reply_to else target\n", "O9.3"),
+    V("F58 respelled: failures always go to whoever started the node mechanic", "keep", _M, "        self.send(self._failure_target(msg, sender), msg)\n", "        self.send(self.reply_to, msg)\n", "O9.3"),
     V("no_retry catches Exception only", "break", _A, "        except BaseException:\n            # log here", "        except Exception:\n            # log here", "O9.1"),
     V("no_retry logs but does not send", "break", _A, "            self.send(sender, BenchmarkFailure(traceback.format_exc()))", "            pass", "O9.1"),
     V("drop no_retry on UpdateSamples", "break", _D, '    @actor.no_retry("driver")  # pylint: disable=no-value-for-parameter\n    def receiveMsg_UpdateSamples', "    def receiveMsg_UpdateSamples", "O9.2"),
